@@ -1083,7 +1083,21 @@ func cmdSelfcheck(a []string) int {
 		n, _ = strconv.Atoi(a[1])
 	}
 	self, _ := os.Executable()
+	// run the children from a private copy: check.sh may rebuild bin/fgsim
+	// (possibly against a patched fastgo) while a long self-check is running
+	if b, err := os.ReadFile(self); err == nil {
+		if f, err := os.CreateTemp("", "fgsim-selfcheck-*"); err == nil {
+			f.Write(b)
+			f.Close()
+			os.Chmod(f.Name(), 0o755)
+			self = f.Name()
+			defer os.Remove(self)
+		}
+	}
 	ids := props.IDs()
+	if len(a) > 2 {
+		ids = a[2:]
+	}
 	bad := 0
 	type job struct {
 		id   string
